@@ -284,6 +284,9 @@ func (e *Engine) verifyFuncMode(c *Contract, mode string) (rep *FuncReport) {
 		s.assume(f)
 		s.curOrigin = ""
 	}
+	s.curOrigin = "requires"
+	s.dispatchAllFacts(fr, st)
+	s.curOrigin = ""
 	s.reqEnd = len(s.asserts)
 	fr.old = st.clone()
 	fr.old.Heap = map[string]T{}
